@@ -641,4 +641,91 @@ def getParentLocationLegacy (c : Cfg) (name : Str) : Except Err (Option Str) :=
   | none => .error .unicodeEncode
   | some nm => getParentWith true c nm (getOrigin c nm)
 
+/-! ## 8. how dulwich's `ConfigFile` writes a value and reads it back
+
+`set_parent` ends with `ConfigFile.write_to_file`, `get_parent` starts with
+`ConfigFile.from_file`: every value goes through `_format_string` and comes
+back through `_parse_string`. -/
+
+/-- `_escape_value`: five successive `replace` calls, in source order -/
+def cfgEscape (v : NBytes) : NBytes :=
+  replaceByte 34 [92, 34] (replaceByte 9 [92, 116] (replaceByte 10 [92, 110]
+    (replaceByte 13 [92, 114] (replaceByte 92 [92, 92] v))))
+
+/-- the condition under which `_format_string` puts the value in double quotes:
+it starts or ends with a space or tab, or contains `#` (note: *not* `;`) -/
+def cfgNeedsQuote (v : NBytes) : Bool :=
+  v.head? == some 32 || v.head? == some 9 || v.getLast? == some 32 || v.getLast? == some 9 || v.contains 35
+
+/-- `_format_string` -/
+def cfgFormat (v : NBytes) : NBytes :=
+  if cfgNeedsQuote v then 34 :: cfgEscape v ++ [34] else cfgEscape v
+
+/-- `_ESCAPE_TABLE` (`\\`, `\"`, `\n`, `\t`, `\b`) -/
+def cfgUnescChar (c : Nat) : Option Nat :=
+  if c = 92 then some 92 else if c = 34 then some 34 else if c = 110 then some 10
+  else if c = 116 then some 9 else if c = 98 then some 8 else none
+
+/-- the loop of `_parse_string` (after `strip()`), returning the bytes appended
+to `ret` from here on.  `inq` = inside double quotes, `esc` = the previous
+character was a backslash that has not been consumed yet, `ws` = the pending
+run of unquoted spaces/tabs (kept only if something follows).  `none` =
+`ValueError("missing end quote")`. -/
+def cfgParseGo (inq esc : Bool) (ws : NBytes) : NBytes → Option NBytes
+  | [] => if inq then none else some (if esc then ws ++ [92] else [])
+  | c :: rest =>
+    match (if esc then cfgUnescChar c else none) with
+    | some v => (cfgParseGo inq false [] rest).map (ws ++ v :: ·)
+    | none =>
+      -- after an unknown escape the backslash is a literal and `c` is processed normally
+      let pre := if esc then ws ++ [92] else []
+      let ws := if esc then [] else ws
+      if c = 92 then (cfgParseGo inq true ws rest).map (pre ++ ·)
+      else if c = 34 then (cfgParseGo (!inq) false ws rest).map (pre ++ ·)
+      else if (c = 35 || c = 59) && !inq then some pre        -- comment: the rest of the line is dropped
+      else if c = 9 || c = 32 then
+        if inq then (cfgParseGo inq false ws rest).map (pre ++ c :: ·)
+        else (cfgParseGo inq false (ws ++ [c]) rest).map (pre ++ ·)
+      else (cfgParseGo inq false [] rest).map (pre ++ ws ++ c :: ·)
+
+/-- `_parse_string`: `bytes.strip()` removes the ASCII whitespace `isWs` -/
+def cfgParse (s : NBytes) : Option NBytes := cfgParseGo false false [] (trimWs s)
+
+/-- what `from_file` reads for a value `write_to_file` wrote as
+`\t<name> = <formatted>\n`: the text after the first `=` up to and including
+the newline goes to `_parse_string` -/
+def cfgReread (v : NBytes) : Option NBytes := cfgParse (32 :: cfgFormat v ++ [10])
+
+/-- the values dulwich writes and reads back unchanged: no carriage return
+(written as `\r`, which `_parse_string` does not know); and, unless the value
+is quoted anyway, no `;` (taken for a comment) and no vertical tab / form feed
+at either end (removed by `strip()`) -/
+def cfgValueSafe (v : NBytes) : Bool :=
+  !v.contains 13 &&
+    (cfgNeedsQuote v ||
+      (!v.contains 59 && v.head? != some 11 && v.head? != some 12 && v.getLast? != some 11 && v.getLast? != some 12))
+
+/-- the whole configuration after `write_to_file` + `from_file` (section and
+variable names are taken as written: branch and remote names without `"`, `\`
+or control characters) -/
+def cfgRereadAll : Cfg → Option Cfg
+  | [] => some []
+  | (k, v) :: rest =>
+    match cfgReread v, cfgRereadAll rest with
+    | some v', some rest' => some ((k, v') :: rest')
+    | _, _ => none
+
+/-- `_escape_subsection` / `_unescape_subsection` (section headers `[branch "<name>"]`) -/
+def subsecEscape (n : NBytes) : NBytes := replaceByte 34 [92, 34] (replaceByte 92 [92, 92] n)
+
+def subsecUnescape : NBytes → NBytes
+  | [] => []
+  | [c] => [c]
+  | c :: d :: rest => if c = 92 then d :: subsecUnescape rest else c :: subsecUnescape (d :: rest)
+
+/-- "no comma in the last path segment", before and after `strip_trailing_slash`:
+all that `split_segment_parameters` looks at -/
+def lastSegCommaFree (u : Str) : Bool :=
+  !(splitLastSlash (stripTrailingSlash u)).2.contains 44 && !(splitLastSlash u).2.contains 44
+
 end BreezyVerif.C36
